@@ -14,16 +14,29 @@ import (
 // faultScript: scripted transient failures (retries are part of the quantifier:
 // requests only produced on retry paths must conform too).
 type faultScript struct {
-	mu      sync.Mutex
-	mode    string
-	batches int
-	puts    int
-	gets    int
-	c       *caseCtx
+	mu       sync.Mutex
+	mode     string
+	batches  int
+	puts     int
+	gets     int
+	verifies int
+	c        *caseCtx
 }
 
-var pushFaultModes = []string{"none", "none", "batch-503", "batch-500-twice", "batch-429", "put-503", "put-reset", "put-500-twice", "expired-action", "mix"}
-var fetchFaultModes = []string{"none", "none", "batch-503", "batch-429", "get-503", "get-reset", "get-cut", "get-500-twice", "expired-action", "mix"}
+var pushFaultModes = []string{"none", "none", "batch-503", "batch-500-twice", "batch-429", "put-503", "put-reset", "put-500-twice", "expired-action", "mix", "put-401", "verify-401"}
+var fetchFaultModes = []string{"none", "none", "batch-503", "batch-429", "get-503", "get-reset", "get-cut", "get-500-twice", "expired-action", "mix", "get-401"}
+
+// offerAuthorization: in half of the cases every action carries its own Authorization header, and the user
+// has credentials for the host (a credential helper); a 401 on such an action request must not make git-lfs
+// repeat the request with anything but the offered header
+func (c *caseCtx) offerAuthorization(dir string) string {
+	if c.idx%2 == 1 {
+		return "auth-not-offered"
+	}
+	c.srv.ActionAuthorization = true
+	c.must(dir, "config", "credential.helper", "!f() { echo username=alice; echo password=s3cret; }; f")
+	return "auth-offered+credentials"
+}
 
 func (f *faultScript) hook(rq *fakelfs.Request) *fakelfs.Fault {
 	f.mu.Lock()
@@ -85,6 +98,11 @@ func (f *faultScript) hook(rq *fakelfs.Request) *fakelfs.Fault {
 				f.c.count("faults_storage_5xx", 1)
 				return &fakelfs.Fault{Status: 503}
 			}
+		case "put-401":
+			if hit(n, 1, 3) {
+				f.c.count("faults_storage_401", 1)
+				return &fakelfs.Fault{Status: 401}
+			}
 		case "put-500-twice", "mix":
 			if hit(n, 2, 3) {
 				f.c.count("faults_storage_5xx", 1)
@@ -96,6 +114,12 @@ func (f *faultScript) hook(rq *fakelfs.Request) *fakelfs.Fault {
 				return &fakelfs.Fault{Reset: true}
 			}
 		}
+	case "verify":
+		f.verifies++
+		if f.mode == "verify-401" && hit(f.verifies, 1, 3) {
+			f.c.count("faults_verify_401", 1)
+			return &fakelfs.Fault{Status: 401}
+		}
 	case "storage-get":
 		f.gets++
 		n := f.gets
@@ -104,6 +128,11 @@ func (f *faultScript) hook(rq *fakelfs.Request) *fakelfs.Fault {
 			if hit(n, 1) {
 				f.c.count("faults_storage_5xx", 1)
 				return &fakelfs.Fault{Status: 503}
+			}
+		case "get-401":
+			if hit(n, 1, 3) {
+				f.c.count("faults_storage_401", 1)
+				return &fakelfs.Fault{Status: 401}
 			}
 		case "get-500-twice", "mix":
 			if hit(n, 2, 3) {
@@ -152,6 +181,10 @@ func (c *caseCtx) partPush(spec caseSpec, hostile bool) {
 	}
 	c.must(g.Dir, "config", "lfs.transfer.batchsize", fmt.Sprint(batch))
 	mode := pushFaultModes[r.Intn(len(pushFaultModes))]
+	if mode == "verify-401" {
+		c.srv.WithVerify = true
+	}
+	authMode := c.offerAuthorization(g.Dir)
 	fs := &faultScript{mode: mode, c: c}
 	c.srv.SetHook(fs.hook)
 	branches := append([]string{}, g.Branches...)
@@ -177,7 +210,7 @@ func (c *caseCtx) partPush(spec caseSpec, hostile bool) {
 		branches = hostileNames // the hostile part pushes hostile names only
 		c.notef("hostile refs: %q", hostileNames)
 	}
-	c.class = fmt.Sprintf("%s/batch%d/verify-%v/fault-%s/%s", c.part, batch, c.srv.WithVerify, mode, ctMode)
+	c.class = fmt.Sprintf("%s/batch%d/verify-%v/fault-%s/%s/%s", c.part, batch, c.srv.WithVerify, mode, ctMode, authMode)
 	c.notef("history ops: %d, branches %q, batchsize %d, verify actions %v, fault script %s", len(g.Log), branches, batch, c.srv.WithVerify, mode)
 	pick := func() string { return branches[r.Intn(len(branches))] }
 	up := func(refs ...string) *expect { return &expect{op: "upload", refs: refs} }
